@@ -7,6 +7,7 @@ import (
 	"fmt"
 	"os"
 	"path/filepath"
+	"strings"
 	"testing"
 
 	"pgregory.net/rapid"
@@ -71,6 +72,9 @@ func genAnyCall(t *rapid.T, api string, o textOpts, col *collector) Call {
 	switch api {
 	case "ssnap":
 		v := strVal(genText(t, o))
+		if rapid.IntRange(0, 9).Draw(t, "big") == 0 {
+			v = strVal(bigText(t))
+		}
 		if rapid.IntRange(0, 3).Draw(t, "structured") == 0 {
 			v = genStructuredVal(t)
 		}
@@ -93,7 +97,7 @@ func genChanged(t *rapid.T, old Call, o textOpts, col *collector) Call {
 		if old.Vals[0].Kind == "str" && rapid.Bool().Draw(t, "derive") {
 			s := string(old.Vals[0].S)
 			var n string
-			switch rapid.IntRange(0, 5).Draw(t, "how") {
+			switch rapid.IntRange(0, 6).Draw(t, "how") {
 			case 0:
 				n = ""
 			case 1:
@@ -108,6 +112,21 @@ func genChanged(t *rapid.T, old Call, o textOpts, col *collector) Call {
 				n = "---"
 			case 4:
 				n = s + "\n"
+			case 5: // same length, one byte changed (41 -> 42)
+				if len(s) > 0 {
+					b := []byte(s)
+					i := rapid.IntRange(0, len(b)-1).Draw(t, "samelen")
+					if b[i] != '\n' && b[i] != '\r' {
+						if b[i] == 'x' {
+							b[i] = 'y'
+						} else {
+							b[i] = 'x'
+						}
+					}
+					n = string(b)
+				} else {
+					n = "x"
+				}
 			default:
 				n = mutateText(t, s, o)
 			}
@@ -422,4 +441,14 @@ func classifyC04(c c04Case) ([]string, bool) {
 
 func TestC04_Update(t *testing.T) {
 	prop[c04Case]{property: "C04", gen: genC04, check: checkC04, classify: classifyC04}.run(t)
+}
+
+// bigText: a few KiB of lines, so that snapshot files exceed the 4 KiB read chunk of bufio.Scanner.
+func bigText(t *rapid.T) string {
+	n := rapid.IntRange(40, 160).Draw(t, "biglines")
+	var sb strings.Builder
+	for i := 0; i < n; i++ {
+		fmt.Fprintf(&sb, "line %03d %s\n", i, strings.Repeat(rapid.SampledFrom([]string{"x", "ab", "-"}).Draw(t, "bigch"), rapid.IntRange(0, 60).Draw(t, "biglen")))
+	}
+	return sb.String()
 }
